@@ -2,17 +2,21 @@
 
 package grandpa
 
-// C22, part "layered": complete enumeration of ONE voting round.
+// C22, part "layered": complete enumeration of ONE voting round, for several voter-set sizes.
 //
-// In one round the honest steps are layered: a prevote depends only on the voter's best chain and on
-// whether it has seen the primary's vote; a precommit depends only on the voter's view of the prevotes;
-// a finalisation depends only on the voter's view of prevotes and precommits.  Every interleaving of
-// deliveries and steps is therefore equivalent, for what each voter decides, to choosing for every
-// voter and every decision the set of messages it has received by then (any subset of the messages
-// that can exist = arbitrary delay, reordering and loss; Byzantine votes can be shown to any voter
-// independently).  This part enumerates ALL such choices and evaluates every decision with the real
-// Service code on a real instance; it then checks, for every jointly possible combination, that no two
-// honest voters can finalise blocks on different forks (own finalisation, or a Byzantine-built commit).
+// In one round the honest steps are layered: a prevote depends only on the voter's best chain (and
+// on whether it has seen the primary's vote, which only makes it vote like a voter with the other
+// preference); a precommit depends only on the voter's view of the prevotes; a finalisation depends
+// only on the voter's view of prevotes and precommits.  Every interleaving of deliveries and steps is
+// therefore equivalent, for what each voter decides, to choosing for every voter and every decision
+// the set of messages it has received by then (any subset of the messages that can exist =
+// arbitrary delay, reordering and loss; Byzantine votes can be shown to any voter independently).
+// This part enumerates ALL such choices, evaluates every decision with the real Service code on a
+// real instance, and checks for every jointly possible combination that no two honest voters can
+// finalise blocks on different forks (own finalisation, or a Byzantine-built commit).
+//
+// Voter sets: h honest voters + 1 Byzantine voter (n = h+1, honest > 2/3 for h >= 3).  n = 4 and
+// n = 5 are both needed: thresholds computed with integer division differ when n = 2 (mod 3).
 
 import (
 	"fmt"
@@ -20,20 +24,22 @@ import (
 	"strings"
 	"sync"
 	"testing"
+	"time"
 
+	"github.com/ChainSafe/gossamer/internal/log"
 	"github.com/ChainSafe/gossamer/internal/verifmc"
+	"github.com/ChainSafe/gossamer/lib/blocktree"
+	"github.com/ChainSafe/gossamer/lib/common"
 	"github.com/libp2p/go-libp2p/core/peer"
 )
 
-const c22Primary = 1 // derivePrimary(): voters[round % n] with round 1
-
 type c22View struct {
-	honest uint8 // bit j: has the vote of honest voter j (never the own bit)
-	byz    uint8 // bit b: has the Byzantine vote for block b (b = 1..4)
+	honest uint16 // bit j: has the vote of honest voter j (never the own bit)
+	byz    uint8  // bit b: has the Byzantine vote for block b (b = 1..4)
 }
 
 func (v c22View) sub(w c22View) bool { return v.honest&^w.honest == 0 && v.byz&^w.byz == 0 }
-func (v c22View) String() string     { return fmt.Sprintf("{honest:%03b byz-blocks:%05b}", v.honest, v.byz) }
+func (v c22View) String() string     { return fmt.Sprintf("{honest:%b byz-blocks:%05b}", v.honest, v.byz) }
 
 func c22PopCount(x uint8) int {
 	n := 0
@@ -43,361 +49,428 @@ func c22PopCount(x uint8) int {
 	return n
 }
 
-// all views of voter i: subsets of the other honest voters x Byzantine vote sets of size <= maxByz
-func c22Views(i int, maxByz int) []c22View {
-	var out []c22View
-	for h := uint8(0); h < 8; h++ {
-		if h&(1<<i) != 0 {
-			continue
-		}
-		for z := uint8(0); z < 32; z += 2 { // bits 1..4
-			if c22PopCount(z) <= maxByz {
-				out = append(out, c22View{h, z})
+// Byzantine vote sets: subsets of `blocks` of size <= maxByz, as bit masks over block indices
+func c22ZSets(blocks []int, maxByz int) []uint8 {
+	var out []uint8
+	for m := 0; m < 1<<len(blocks); m++ {
+		var z uint8
+		for i, b := range blocks {
+			if m&(1<<i) != 0 {
+				z |= 1 << b
 			}
+		}
+		if c22PopCount(z) <= maxByz {
+			out = append(out, z)
 		}
 	}
 	return out
 }
 
-type c22Pool struct {
-	mu    sync.Mutex
-	nodes map[[2]int][]*c21Node
+func c22Views(i, h int, zsets []uint8) []c22View {
+	var out []c22View
+	for hm := uint16(0); hm < 1<<h; hm++ {
+		if hm&(1<<i) != 0 {
+			continue
+		}
+		for _, z := range zsets {
+			out = append(out, c22View{hm, z})
+		}
+	}
+	return out
 }
 
-func (p *c22Pool) get(i, pref int) *c21Node {
+// c22NewNodeN: a real Service for honest voter `self` of n voters whose best chain ends at prefLeaf.
+func c22NewNodeN(tree *c21Tree, n, self, prefLeaf int) *c21Node {
+	bt := blocktree.NewBlockTreeFromRoot(tree.hdr[0])
+	for i := 1; i < len(tree.parent); i++ {
+		at := c21ArrivalBase.Add(time.Duration(10+i) * time.Second)
+		if tree.isAnc(i, prefLeaf) {
+			at = c21ArrivalBase.Add(time.Duration(i) * time.Second)
+		}
+		if err := bt.AddBlock(tree.hdr[i], at); err != nil {
+			panic(err)
+		}
+	}
+	bs := &c21BlockState{tree: tree, bt: bt, head: 0,
+		finalised: map[[2]uint64]common.Hash{{0, 0}: tree.hash[0]}, justif: map[common.Hash][]byte{}}
+	gs := c21NewGrandpaState(c21Voters(n))
+	net := &c21Network{}
+	svc, err := NewService(&Config{LogLvl: log.Critical, BlockState: bs, GrandpaState: gs, Network: net,
+		Voters: c21Voters(n), Keypair: c21Keypair(self), Authority: true, Interval: time.Hour, Telemetry: c21Telemetry{}})
+	if err != nil {
+		panic(err)
+	}
+	return &c21Node{svc: svc, bs: bs, gs: gs, net: net, tree: tree, self: self}
+}
+
+type c22Pool struct {
+	mu    sync.Mutex
+	nodes map[[3]int][]*c21Node
+}
+
+func (p *c22Pool) get(n, i, pref int) *c21Node {
+	k := [3]int{n, i, pref}
 	p.mu.Lock()
-	l := p.nodes[[2]int{i, pref}]
-	if n := len(l); n > 0 {
-		nd := l[n-1]
-		p.nodes[[2]int{i, pref}] = l[:n-1]
+	l := p.nodes[k]
+	if ln := len(l); ln > 0 {
+		nd := l[ln-1]
+		p.nodes[k] = l[:ln-1]
 		p.mu.Unlock()
 		nd.c21Recycle(0)
 		return nd
 	}
 	p.mu.Unlock()
-	return c22NewNode(c22Tree(), i, pref)
+	return c22NewNodeN(c22Tree(), n, i, pref)
 }
-func (p *c22Pool) put(i, pref int, nd *c21Node) {
+func (p *c22Pool) put(n, i, pref int, nd *c21Node) {
+	k := [3]int{n, i, pref}
 	p.mu.Lock()
-	p.nodes[[2]int{i, pref}] = append(p.nodes[[2]int{i, pref}], nd)
+	p.nodes[k] = append(p.nodes[k], nd)
 	p.mu.Unlock()
 }
 
-// c22Round1 opens round 1 on a fresh node, stores the voter's own prevote and delivers a prevote view.
-func c22Round1(nd *c21Node, i int, pv [c22Honest]int, view c22View) {
+type c22Layer struct {
+	h, n int // honest voters 0..h-1, Byzantine voter = h, n = h+1
+	pref []int
+	pv   []int
+	pool *c22Pool
+}
+
+// round1 opens round 1 on a node, stores the voter's own prevote and delivers a prevote view.
+func (L *c22Layer) round1(nd *c21Node, i int, view c22View) {
 	tree := c22Tree()
 	if err := nd.svc.initiateRound(); err != nil {
 		panic(err)
 	}
-	if pv[i] > 0 {
-		nd.c21StoreOwnVote(tree.vote(pv[i]), prevote)
+	if L.pv[i] > 0 {
+		nd.c21StoreOwnVote(tree.vote(L.pv[i]), prevote)
 	}
-	for j := 0; j < c22Honest; j++ {
-		if view.honest&(1<<j) != 0 && pv[j] > 0 {
-			_, _ = nd.svc.validateVoteMessage(peer.ID("h"), c21VoteMsg(j, prevote, tree.vote(pv[j]), 1, 0))
+	for j := 0; j < L.h; j++ {
+		if view.honest&(1<<j) != 0 && L.pv[j] > 0 {
+			_, _ = nd.svc.validateVoteMessage(peer.ID("h"), c21VoteMsg(j, prevote, tree.vote(L.pv[j]), 1, 0))
 		}
 	}
 	for b := 1; b <= 4; b++ {
 		if view.byz&(1<<b) != 0 {
-			_, _ = nd.svc.validateVoteMessage(peer.ID("byz"), c21VoteMsg(c22Byz, prevote, tree.vote(b), 1, 0))
+			_, _ = nd.svc.validateVoteMessage(peer.ID("byz"), c21VoteMsg(L.h, prevote, tree.vote(b), 1, 0))
 		}
 	}
+}
+
+type c22FinKey struct {
+	S2   c22View
+	own  int
+	recv string // blocks of the honest precommits received, one byte per voter ('0' = none)
+	z    uint8
+}
+
+// c22RunConfig enumerates one (voter set size, preference assignment); returns decisions evaluated and
+// joint combinations checked.
+func c22RunConfig(r *verifmc.Report, pool *c22Pool, h int, pref []int, seenPrimary []bool, zsets []uint8) (int64, int64) {
+	tree := c22Tree()
+	n := h + 1
+	L := &c22Layer{h: h, n: n, pref: pref, pv: make([]int, h), pool: pool}
+	label := fmt.Sprintf("n=%d (honest %d + 1 Byzantine) pref=%v seenPrimary=%v", n, h, pref, seenPrimary)
+	local := int64(0)
+	// ---- layer A: prevotes (real determinePreVote on the voter's own best chain)
+	const primary = 1 // derivePrimary(): voters[round % n] in round 1
+	order := []int{primary}
+	for i := 0; i < h; i++ {
+		if i != primary {
+			order = append(order, i)
+		}
+	}
+	for _, i := range order {
+		nd := pool.get(n, i, pref[i])
+		if err := nd.svc.initiateRound(); err != nil {
+			panic(err)
+		}
+		if i != primary && seenPrimary[i] {
+			_, _ = nd.svc.validateVoteMessage(peer.ID("p"), c21VoteMsg(primary, prevote, tree.vote(L.pv[primary]), 1, 0))
+		}
+		v, err := nd.svc.determinePreVote()
+		pool.put(n, i, pref[i], nd)
+		if err != nil {
+			r.Violate("layered:determinePreVote-error", label+": "+err.Error(), label)
+			return local, 0
+		}
+		L.pv[i] = tree.idx[v.Hash]
+		local++
+	}
+	// ---- layer B: precommit of voter i under prevote view S
+	views := make([][]c22View, h)
+	pcOf := make([]map[c22View]int, h)
+	achievable := make([][]int, h)
+	for i := 0; i < h; i++ {
+		views[i] = c22Views(i, h, zsets)
+		pcOf[i] = map[c22View]int{}
+		seen := map[int]bool{0: true}
+		for _, S := range views[i] {
+			nd := pool.get(n, i, pref[i])
+			L.round1(nd, i, S)
+			p := 0
+			ghost, err := nd.svc.getPreVotedBlock()
+			if err == nil {
+				total, err := nd.svc.getTotalVotesForBlock(ghost.Hash, prevote)
+				if err == nil && total > nd.svc.state.threshold() {
+					if v, err := nd.svc.determinePreCommit(); err == nil {
+						p = tree.idx[v.Hash]
+					}
+				}
+			}
+			pcOf[i][S] = p
+			seen[p] = true
+			pool.put(n, i, pref[i], nd)
+			local++
+		}
+		for p := range seen {
+			achievable[i] = append(achievable[i], p)
+		}
+		sort.Ints(achievable[i])
+	}
+	// ---- layer C: finalisation of voter i (memoised on exactly what the voter has seen)
+	finMemo := make([]map[c22FinKey]int, h)
+	for i := range finMemo {
+		finMemo[i] = map[c22FinKey]int{}
+	}
+	finalise := func(i int, k c22FinKey) int {
+		if v, ok := finMemo[i][k]; ok {
+			return v
+		}
+		nd := pool.get(n, i, pref[i])
+		L.round1(nd, i, k.S2)
+		if k.own > 0 {
+			nd.c21StoreOwnVote(tree.vote(k.own), precommit)
+		}
+		for j := 0; j < h; j++ {
+			if b := int(k.recv[j] - '0'); j != i && b > 0 {
+				_, _ = nd.svc.validateVoteMessage(peer.ID("h"), c21VoteMsg(j, precommit, tree.vote(b), 1, 0))
+			}
+		}
+		for b := 1; b <= 4; b++ {
+			if k.z&(1<<b) != 0 {
+				_, _ = nd.svc.validateVoteMessage(peer.ID("byz"), c21VoteMsg(h, precommit, tree.vote(b), 1, 0))
+			}
+		}
+		res := 0
+		if ok, err := nd.svc.attemptToFinalize(); err == nil && ok {
+			if calls := nd.bs.c21FinalCalls(); len(calls) > 0 {
+				res = tree.idx[calls[len(calls)-1].Hash]
+			}
+		}
+		pool.put(n, i, pref[i], nd)
+		finMemo[i][k] = res
+		local++
+		return res
+	}
+	// Byzantine-built commits accepted by voter i given the honest precommits that exist
+	comMemo := make([]map[string][]int, h)
+	for i := range comMemo {
+		comMemo[i] = map[string][]int{}
+	}
+	commitsAccepted := func(i int, pcs []int) []int {
+		key := fmt.Sprint(pcs)
+		if v, ok := comMemo[i][key]; ok {
+			return v
+		}
+		var acc []int
+		for b := 1; b <= 4; b++ {
+			for extra := 1; extra <= 2; extra++ {
+				for dup := 0; dup <= 1; dup++ { // dup: the honest precommits are listed twice
+					nd := pool.get(n, i, pref[i])
+					if err := nd.svc.initiateRound(); err != nil {
+						panic(err)
+					}
+					cm := &CommitMessage{Round: 1, SetID: 0, Vote: tree.vote(b)}
+					for rep := 0; rep <= dup; rep++ {
+						for j := 0; j < h; j++ {
+							if pcs[j] > 0 && tree.isAnc(b, pcs[j]) {
+								cm.Precommits = append(cm.Precommits, tree.vote(pcs[j]))
+								cm.AuthData = append(cm.AuthData, AuthData{Signature: c21Sign(j, precommit, tree.vote(pcs[j]), 1, 0), AuthorityID: c21PubBytes(j)})
+							}
+						}
+					}
+					bb := []int{b}
+					if extra == 2 {
+						second := b
+						for d := range tree.parent {
+							if d != b && tree.isAnc(b, d) {
+								second = d
+								break
+							}
+						}
+						bb = append(bb, second)
+					}
+					for _, x := range bb {
+						cm.Precommits = append(cm.Precommits, tree.vote(x))
+						cm.AuthData = append(cm.AuthData, AuthData{Signature: c21Sign(h, precommit, tree.vote(x), 1, 0), AuthorityID: c21PubBytes(h)})
+					}
+					_ = nd.svc.handleCommitMessage(cm)
+					if calls := nd.bs.c21FinalCalls(); len(calls) > 0 {
+						acc = append(acc, tree.idx[calls[len(calls)-1].Hash])
+					}
+					pool.put(n, i, pref[i], nd)
+					local++
+				}
+			}
+		}
+		sort.Ints(acc)
+		comMemo[i][key] = acc
+		return acc
+	}
+	// blocks voter i can finalise when the precommits of all honest voters are pcs (pcs[j] = 0: voter j
+	// has not precommitted): union over its own compatible precommit views, later prevote views,
+	// received subsets of the others' precommits and Byzantine precommit sets
+	possible := func(i int, pcs []int) map[int]string {
+		out := map[int]string{}
+		for _, S := range views[i] {
+			if pcs[i] != 0 && pcOf[i][S] != pcs[i] {
+				continue
+			}
+			for _, S2 := range views[i] {
+				if !S.sub(S2) {
+					continue
+				}
+				for mask := 0; mask < 1<<h; mask++ {
+					if mask&(1<<i) != 0 {
+						continue
+					}
+					recv := make([]byte, h)
+					skip := false
+					for j := 0; j < h; j++ {
+						recv[j] = '0'
+						if mask&(1<<j) != 0 {
+							if pcs[j] == 0 {
+								skip = true // same as the mask without j
+								break
+							}
+							recv[j] = byte('0' + pcs[j])
+						}
+					}
+					if skip {
+						continue
+					}
+					for _, z := range zsets {
+						b := finalise(i, c22FinKey{S2, pcs[i], string(recv), z})
+						if b > 0 {
+							if _, ok := out[b]; !ok {
+								out[b] = fmt.Sprintf("voter %d prevoted b%d, precommitted b%d under prevote view %v, then with prevote view %v, honest precommits received %s and Byzantine precommits for blocks %05b finalised b%d", i, L.pv[i], pcs[i], S, S2, recv, z, b)
+							}
+						}
+					}
+				}
+			}
+		}
+		for _, b := range commitsAccepted(i, pcs) {
+			if _, ok := out[b]; !ok {
+				out[b] = fmt.Sprintf("voter %d accepted a Byzantine-built commit for b%d (honest precommits existing: %v)", i, b, pcs)
+			}
+		}
+		return out
+	}
+	// ---- joint check: every tuple of achievable precommits (a voter's precommit depends only on its own
+	// view, so every tuple of individually achievable precommits is jointly achievable)
+	joint := int64(0)
+	dims := make([]int, h)
+	for i := range dims {
+		dims[i] = len(achievable[i])
+	}
+	verifmc.Product(dims, func(idx []int) {
+		pcs := make([]int, h)
+		for i := range pcs {
+			pcs[i] = achievable[i][idx[i]]
+		}
+		joint++
+		fin := make([]map[int]string, h)
+		nf := 0
+		for i := 0; i < h; i++ {
+			fin[i] = possible(i, pcs)
+			nf += len(fin[i])
+		}
+		for a := 0; a < h; a++ {
+			for b := a + 1; b < h; b++ {
+				for x, hx := range fin[a] {
+					for y, hy := range fin[b] {
+						if !tree.isAnc(x, y) && !tree.isAnc(y, x) {
+							r.Violate("safety:two-forks-finalised:one-round",
+								fmt.Sprintf("%s prevotes=%v: SAFETY: b%d and b%d finalised on different forks: [%s] and [%s]", label, L.pv, x, y, hx, hy),
+								map[string]any{"config": label, "prevotes": L.pv, "a": hx, "b": hy})
+						}
+					}
+				}
+			}
+		}
+		r.Outcome(fmt.Sprintf("n=%d precommits=%v finalisable-blocks=%d", n, pcs, nf))
+	})
+	r.Distinct(label)
+	var pcl []string
+	for i := 0; i < h; i++ {
+		pcl = append(pcl, fmt.Sprintf("v%d:%d views->precommits %v", i, len(pcOf[i]), achievable[i]))
+	}
+	r.Sample(map[string]any{"config": label, "prevotes": fmt.Sprint(L.pv), "precommit_views": strings.Join(pcl, " "), "decisions_evaluated": local, "precommit_tuples": joint})
+	return local, joint
 }
 
 func TestVerif_C22_layered(t *testing.T) {
 	r := verifmc.NewReport("C22", "layered-one-round", "model_checking")
 	defer r.Write()
-	maxByz := verifmc.Pick(2, 4)
-	r.Rule = fmt.Sprintf("one complete voting round of 3 real honest voters + 1 Byzantine voter on the tree root->A->A1, root->B->B1, for all 8 assignments of preferred forks: every choice of (has the voter seen the primary's vote before prevoting) x (prevote view at precommit time: any subset of the other honest prevotes and any set of <= %d Byzantine prevotes) x (prevote and precommit views at finalisation time: any superset / any subset of the existing honest precommits and any set of <= %d Byzantine precommits) is evaluated with the real determinePreVote / defineRoundVotes condition + determinePreCommit / attemptToFinalize on a real Service; Byzantine-built commits (every target block, existing honest precommits + 1-2 Byzantine ones, duplicates) are given to handleCommitMessage; for every jointly possible combination the blocks finalised by different honest voters must be on one chain. A state = one (voter, views) decision context; a transition = one evaluated decision", maxByz, maxByz)
-	r.Assumption("within a round honest decisions are layered (prevote <- primary's vote; precommit <- prevote view; finalise <- prevote+precommit view), so choosing the received sets per decision covers every interleaving, delay, reordering and loss")
-	tree := c22Tree()
-	pool := &c22Pool{nodes: map[[2]int][]*c21Node{}}
-	leaves := []int{2, 4}
-	var mu sync.Mutex
-	var decisions, joint int64
+	maxByz := verifmc.Pick(2, 3)
+	r.Rule = fmt.Sprintf("one complete voting round on the tree root->A->A1, root->B->B1 for voter sets of 3 honest + 1 Byzantine (all 8 assignments of preferred forks x has each voter seen the primary's prevote before prevoting) and 4 honest + 1 Byzantine (thorough: also 5+1; preferred forks up to renaming of honest voters): every choice of (prevote view at precommit time: any subset of the other honest prevotes and any set of <= %d Byzantine prevotes) x (prevote and precommit views at finalisation time: any superset / any subset of the existing honest precommits and any set of <= %d Byzantine precommits; for the larger sets Byzantine votes are for the two leaves) is evaluated with the real determinePreVote / defineRoundVotes condition + determinePreCommit / attemptToFinalize on a real Service; Byzantine-built commits (every target block, existing honest precommits once or twice + 1-2 Byzantine ones) are given to handleCommitMessage; for every tuple of achievable precommits the blocks that different honest voters can finalise must be on one chain. A state = one (voter, views) decision context; a transition = one evaluated decision", maxByz, maxByz)
+	r.Assumption("within a round honest decisions are layered (precommit <- prevote view; finalise <- prevote+precommit view) and a voter's precommit depends only on its own view, so choosing the received sets per decision covers every interleaving, delay, reordering and loss; seeing the primary's vote only makes a voter prevote like a voter of the other preference (covered by the preference assignments)")
+	pool := &c22Pool{nodes: map[[3]int][]*c21Node{}}
 	type job struct {
-		pref [c22Honest]int
-		seen [c22Honest]bool // has seen the primary's vote before prevoting
+		h     int
+		pref  []int
+		seen  []bool // has seen the primary's prevote before prevoting
+		zsets []uint8
 	}
 	var jobs []job
-	for _, p0 := range leaves {
-		for _, p1 := range leaves {
-			for _, p2 := range leaves {
-				for s := 0; s < 4; s++ {
-					jobs = append(jobs, job{[c22Honest]int{p0, p1, p2}, [c22Honest]bool{s&1 != 0, false, s&2 != 0}})
+	allBlocks, leaves := []int{1, 2, 3, 4}, []int{2, 4}
+	sizes := verifmc.Pick([]int{3, 4}, []int{3, 4, 5})
+	for _, h := range sizes {
+		zs := c22ZSets(allBlocks, maxByz)
+		if h >= 4 {
+			zs = c22ZSets(leaves, 2)
+		}
+		if h == 3 {
+			// all 8 assignments x has each non-primary voter seen the primary's prevote first
+			for m := 0; m < 8; m++ {
+				p := make([]int, h)
+				for i := range p {
+					p[i] = 2
+					if m&(1<<i) != 0 {
+						p[i] = 4
+					}
+				}
+				for sm := 0; sm < 4; sm++ {
+					jobs = append(jobs, job{h, p, []bool{sm&1 != 0, false, sm&2 != 0}, zs})
 				}
 			}
+			continue
+		}
+		for k := 0; k <= h; k++ { // the first k honest voters prefer A1, the others B1
+			p := make([]int, h)
+			for i := range p {
+				p[i] = 4
+				if i < k {
+					p[i] = 2
+				}
+			}
+			jobs = append(jobs, job{h, p, make([]bool, h), zs})
 		}
 	}
+	var mu sync.Mutex
+	var decisions, joint int64
 	verifmc.ParallelFor(r, len(jobs), func(ji int) {
-		jb := jobs[ji]
-		label := fmt.Sprintf("pref=%v seenPrimary=%v", jb.pref, jb.seen)
-		local := int64(0)
-		// ---- layer A: prevotes
-		var pv [c22Honest]int
-		order := []int{c22Primary, 0, 2}
-		for _, i := range order {
-			nd := pool.get(i, jb.pref[i])
-			if err := nd.svc.initiateRound(); err != nil {
-				panic(err)
-			}
-			if i != c22Primary && jb.seen[i] {
-				_, _ = nd.svc.validateVoteMessage(peer.ID("p"), c21VoteMsg(c22Primary, prevote, tree.vote(pv[c22Primary]), 1, 0))
-			}
-			v, err := nd.svc.determinePreVote()
-			if err != nil {
-				r.Violate("layered:determinePreVote-error", label+": "+err.Error(), label)
-				pool.put(i, jb.pref[i], nd)
-				return
-			}
-			pv[i] = tree.idx[v.Hash]
-			pool.put(i, jb.pref[i], nd)
-			local++
-		}
-		// ---- layer B: precommit of voter i under prevote view S
-		views := [c22Honest][]c22View{}
-		pcOf := [c22Honest]map[c22View]int{}
-		for i := 0; i < c22Honest; i++ {
-			views[i] = c22Views(i, maxByz)
-			pcOf[i] = map[c22View]int{}
-			for _, S := range views[i] {
-				nd := pool.get(i, jb.pref[i])
-				c22Round1(nd, i, pv, S)
-				p := 0
-				ghost, err := nd.svc.getPreVotedBlock()
-				if err == nil {
-					total, err := nd.svc.getTotalVotesForBlock(ghost.Hash, prevote)
-					if err == nil && total > nd.svc.state.threshold() {
-						if v, err := nd.svc.determinePreCommit(); err == nil {
-							p = tree.idx[v.Hash]
-						}
-					}
-				}
-				pcOf[i][S] = p
-				pool.put(i, jb.pref[i], nd)
-				local++
-			}
-		}
-		// ---- layer C: finalisation of voter i: prevote view S2, own precommit p, received honest
-		// precommits (block per other voter, 0 = not received / not sent), Byzantine precommit set Z
-		type finKey struct {
-			S2   c22View
-			own  int
-			recv [c22Honest]int
-			z    uint8
-		}
-		finMemo := [c22Honest]map[finKey]int{}
-		finalise := func(i int, k finKey) int {
-			if v, ok := finMemo[i][k]; ok {
-				return v
-			}
-			nd := pool.get(i, jb.pref[i])
-			c22Round1(nd, i, pv, k.S2)
-			if k.own > 0 {
-				nd.c21StoreOwnVote(tree.vote(k.own), precommit)
-			}
-			for j := 0; j < c22Honest; j++ {
-				if j != i && k.recv[j] > 0 {
-					_, _ = nd.svc.validateVoteMessage(peer.ID("h"), c21VoteMsg(j, precommit, tree.vote(k.recv[j]), 1, 0))
-				}
-			}
-			for b := 1; b <= 4; b++ {
-				if k.z&(1<<b) != 0 {
-					_, _ = nd.svc.validateVoteMessage(peer.ID("byz"), c21VoteMsg(c22Byz, precommit, tree.vote(b), 1, 0))
-				}
-			}
-			res := 0
-			if ok, err := nd.svc.attemptToFinalize(); err == nil && ok {
-				calls := nd.bs.c21FinalCalls()
-				if len(calls) > 0 {
-					res = tree.idx[calls[len(calls)-1].Hash]
-				}
-			}
-			pool.put(i, jb.pref[i], nd)
-			finMemo[i][k] = res
-			local++
-			return res
-		}
-		for i := range finMemo {
-			finMemo[i] = map[finKey]int{}
-		}
-		// Byzantine-built commits accepted by voter i given the honest precommits that exist
-		type comKey struct {
-			pcs [c22Honest]int
-		}
-		comMemo := [c22Honest]map[comKey][]int{}
-		for i := range comMemo {
-			comMemo[i] = map[comKey][]int{}
-		}
-		commitsAccepted := func(i int, pcs [c22Honest]int) []int {
-			k := comKey{pcs}
-			if v, ok := comMemo[i][k]; ok {
-				return v
-			}
-			var acc []int
-			for b := 1; b <= 4; b++ {
-				for extra := 1; extra <= 2; extra++ {
-					for dup := 0; dup <= 1; dup++ { // dup: the honest precommits are listed twice
-						nd := pool.get(i, jb.pref[i])
-						if err := nd.svc.initiateRound(); err != nil {
-							panic(err)
-						}
-						cm := &CommitMessage{Round: 1, SetID: 0, Vote: tree.vote(b)}
-						for rep := 0; rep <= dup; rep++ {
-							for j := 0; j < c22Honest; j++ {
-								if pcs[j] > 0 && tree.isAnc(b, pcs[j]) {
-									cm.Precommits = append(cm.Precommits, tree.vote(pcs[j]))
-									cm.AuthData = append(cm.AuthData, AuthData{Signature: c21Sign(j, precommit, tree.vote(pcs[j]), 1, 0), AuthorityID: c21PubBytes(j)})
-								}
-							}
-						}
-						bb := []int{b}
-						if extra == 2 {
-							second := b
-							for d := range tree.parent {
-								if d != b && tree.isAnc(b, d) {
-									second = d
-									break
-								}
-							}
-							bb = append(bb, second)
-						}
-						for _, x := range bb {
-							cm.Precommits = append(cm.Precommits, tree.vote(x))
-							cm.AuthData = append(cm.AuthData, AuthData{Signature: c21Sign(c22Byz, precommit, tree.vote(x), 1, 0), AuthorityID: c21PubBytes(c22Byz)})
-						}
-						_ = nd.svc.handleCommitMessage(cm)
-						if calls := nd.bs.c21FinalCalls(); len(calls) > 0 {
-							acc = append(acc, tree.idx[calls[len(calls)-1].Hash])
-						}
-						pool.put(i, jb.pref[i], nd)
-						local++
-					}
-				}
-			}
-			sort.Ints(acc)
-			comMemo[i][k] = acc
-			return acc
-		}
-		// ---- joint check over all precommit-view tuples
-		type witness struct {
-			how string
-		}
-		zsets := []uint8{}
-		for z := uint8(0); z < 32; z += 2 {
-			if c22PopCount(z) <= maxByz {
-				zsets = append(zsets, z)
-			}
-		}
-		// possible finalised blocks of voter i given its precommit view S, its precommit p and the others' precommits
-		type gKey struct {
-			i   int
-			S   c22View
-			pcs [c22Honest]int
-		}
-		gMemo := map[gKey]map[int]string{}
-		possible := func(i int, S c22View, pcs [c22Honest]int) map[int]string {
-			k := gKey{i, S, pcs}
-			if v, ok := gMemo[k]; ok {
-				return v
-			}
-			out := map[int]string{}
-			for _, S2 := range views[i] {
-				if !S.sub(S2) {
-					continue
-				}
-				for mask := 0; mask < 4; mask++ { // which of the two other voters' precommits arrived
-					var recv [c22Honest]int
-					bit := 0
-					for j := 0; j < c22Honest; j++ {
-						if j == i {
-							continue
-						}
-						if mask&(1<<bit) != 0 {
-							recv[j] = pcs[j]
-						}
-						bit++
-					}
-					for _, z := range zsets {
-						b := finalise(i, finKey{S2, pcs[i], recv, z})
-						if b > 0 {
-							if _, ok := out[b]; !ok {
-								out[b] = fmt.Sprintf("voter %d prevoted b%d, precommitted b%d under prevote view %v, then with prevote view %v, honest precommits received %v and Byzantine precommits for blocks %05b finalised b%d", i, pv[i], pcs[i], S, S2, recv, z, b)
-							}
-						}
-					}
-				}
-			}
-			for _, b := range commitsAccepted(i, pcs) {
-				if _, ok := out[b]; !ok {
-					out[b] = fmt.Sprintf("voter %d accepted a Byzantine-built commit for b%d (honest precommits existing: %v)", i, b, pcs)
-				}
-			}
-			gMemo[k] = out
-			return out
-		}
-		jointLocal := int64(0)
-		for _, S0 := range views[0] {
-			for _, S1 := range views[1] {
-				for _, S2 := range views[2] {
-					Ss := [c22Honest]c22View{S0, S1, S2}
-					// every voter may also not have precommitted (yet): 0
-					for nop := 0; nop < 8; nop++ {
-						var pcs [c22Honest]int
-						skip := false
-						for i := 0; i < c22Honest; i++ {
-							if nop&(1<<i) == 0 {
-								pcs[i] = pcOf[i][Ss[i]]
-							} else if pcOf[i][Ss[i]] == 0 {
-								skip = true // same as the non-masked case
-							}
-						}
-						if skip {
-							continue
-						}
-						jointLocal++
-						var fin [c22Honest]map[int]string
-						for i := 0; i < c22Honest; i++ {
-							fin[i] = possible(i, Ss[i], pcs)
-						}
-						for a := 0; a < c22Honest; a++ {
-							for b := a + 1; b < c22Honest; b++ {
-								for x, hx := range fin[a] {
-									for y, hy := range fin[b] {
-										if !tree.isAnc(x, y) && !tree.isAnc(y, x) {
-											r.Violate("safety:two-forks-finalised:one-round",
-												fmt.Sprintf("%s prevotes=%v: SAFETY: b%d and b%d finalised on different forks: [%s] and [%s]", label, pv, x, y, hx, hy),
-												map[string]any{"config": label, "prevotes": pv, "a": hx, "b": hy})
-										}
-									}
-								}
-							}
-						}
-						nf := 0
-						for i := range fin {
-							nf += len(fin[i])
-						}
-						r.Outcome(fmt.Sprintf("precommits=%v finalisable-blocks=%d", pcs, nf))
-					}
-				}
-			}
-		}
+		d, j := c22RunConfig(r, pool, jobs[ji].h, jobs[ji].pref, jobs[ji].seen, jobs[ji].zsets)
 		mu.Lock()
-		decisions += local
-		joint += jointLocal
+		decisions += d
+		joint += j
 		mu.Unlock()
-		r.Distinct(label)
-		if ji%8 == 3 {
-			var pcl []string
-			for i := 0; i < c22Honest; i++ {
-				pcl = append(pcl, fmt.Sprintf("v%d:%d views", i, len(pcOf[i])))
-			}
-			r.Sample(map[string]any{"config": label, "prevotes": pv, "precommit_views": strings.Join(pcl, " "), "decisions_evaluated": local, "joint_combinations": jointLocal})
-		}
-	}, func(i int, msg string) { r.Violate("layered:panic@"+verifmc.PanicSite(msg), msg, fmt.Sprint(jobs[i])) })
+	}, func(i int, msg string) { r.Violate("layered:panic@"+verifmc.PanicSite(msg), msg, fmt.Sprint(jobs[i].pref)) })
 	r.Add("states", decisions)
 	r.Add("transitions", decisions)
 	r.Add("traces_validated_against_impl", decisions)
-	r.Add("evaluations", joint)
-	r.Add("joint_combinations_checked", joint)
+	r.Add("evaluations", decisions)
+	r.Add("precommit_tuples_checked", joint)
 }
